@@ -112,8 +112,8 @@ pub enum Op {
 impl Op {
     pub(super) fn collect_parameters(&self, parameters: &mut HashMap<String, Option<Term>>) {
         match self {
-            Op::Value(Term::Parameter(ref name)) => {
-                parameters.insert(name.to_owned(), None);
+            Op::Value(term) => {
+                term.extract_parameters(parameters);
             }
             Op::Closure(_, ops) => {
                 for op in ops {
@@ -126,14 +126,7 @@ impl Op {
 
     pub(super) fn apply_parameters(self, parameters: &HashMap<String, Option<Term>>) -> Self {
         match self {
-            Op::Value(Term::Parameter(ref name)) => {
-                if let Some(Some(t)) = parameters.get(name) {
-                    Op::Value(t.clone())
-                } else {
-                    self
-                }
-            }
-            Op::Value(_) => self,
+            Op::Value(term) => Op::Value(term.apply_parameters(parameters)),
             Op::Unary(_) => self,
             Op::Binary(_) => self,
             Op::Closure(args, mut ops) => Op::Closure(
